@@ -45,7 +45,20 @@ DA = 'contracts/data.c'
 
 WR = 'contracts/writers.c'
 
+IO = 'contracts/c3dio.c'
+
 UNITS = [
+    U('c3d_write', IO, 'h_c3d_write', ['c3d__write/contract_c3d__write'], ['C15', 'C13', 'C14', 'C18'],
+      replace=['Header__write/contract_io_Header__write', 'Parameters__write/contract_io_Parameters__write',
+               'Data__write/contract_io_Data__write'],
+      unwind=8, timeout=300, track_alloc=True,
+      assumes=['Parameters::write and Data::write only touch the stream and record every failure in the stream state '
+               '(frame-only contracts, assumed)']),
+    U('c3d_dtor', IO, 'h_c3d_dtor', ['c3d__dtor/contract_c3d__dtor'], ['C13', 'C10', 'C18'], unwind=5, timeout=120,
+      track_alloc=True),
+    U('c3d_ctor', IO, 'h_c3d_ctor', ['c3d__ctor__void/contract_c3d__ctor__void'], ['C13', 'C05', 'C10'],
+      replace=['Header__ctor__void/contract_any_Header__ctor__void', 'Parameters__ctor__void/contract_any_Parameters__ctor__void',
+               'Data__ctor__void/contract_any_Data__ctor__void'], unwind=5, timeout=120, track_alloc=True),
     U('Header_write', WR, 'h_Header_write', ['Header__write/contract_Header__write'],
       ['C01', 'C03', 'C04', 'C05', 'C12', 'C13', 'C14', 'C17', 'C18', 'C10', 'C02'], unwind=137, timeout=600),
     U('Header_write_limits', WR, 'h_Header_write', ['Header__write/contract_L_Header__write'],
